@@ -30,7 +30,7 @@ func (t *ttlRdsCache) Set(ctx context.Context, key string, value []byte, fns ...
 	}
 	key = t.key(key)
 	if o.mustNotExist {
-		var ok, err = t.cmd.SetNX(ctx, key, value, time.Duration(o.ttl)).Result()
+		var ok, err = t.cmd.SetNX(ctx, key, value, time.Duration(o.ttl)*time.Second).Result()
 		if err != nil {
 			return err
 		}
@@ -39,7 +39,7 @@ func (t *ttlRdsCache) Set(ctx context.Context, key string, value []byte, fns ...
 		}
 		return nil
 	}
-	var ex = time.Duration(o.ttl)
+	var ex = time.Duration(o.ttl) * time.Second
 	if o.keepTTL {
 		ex = redis.KeepTTL
 	}
@@ -65,7 +65,7 @@ func (t *ttlRdsCache) Get(ctx context.Context, key string, fns ...GetOptFn) ([]b
 		return nil, err
 	}
 	if o.updateTTL {
-		err = t.cmd.Expire(ctx, key, time.Duration(o.ttl)).Err()
+		err = t.cmd.Expire(ctx, key, time.Duration(o.ttl)*time.Second).Err()
 		if err != nil {
 			return nil, err
 		}
